@@ -2859,10 +2859,13 @@ impl Context {
                 self.get_ctxdata().next_state_offset = Some(skeleton.total_size());
                 let (retv, _t, states) = self.eval_expr(*expr);
 
+                // the cell of `self` is the first one of the function at run time
+                // (GetState above reads at the function's origin), so it comes first
+                // in the published layout as well
                 (
                     Arc::new(Value::State(retv)),
                     ty,
-                    [states, vec![skeleton]].concat(),
+                    [vec![skeleton], states].concat(),
                 )
             }
             Expr::Let(pat, body, then) => {
